@@ -186,7 +186,7 @@ Print Assumptions c16_limiter_conc_refuted.
    the other keeps waiting, and the budget is reached (1 = limit) *)
 Definition ex_cfg : cfg := mkCfg 1 0 0 (0, 0) (0, 0) true.
 Definition ex_st : ast :=
-  mkA [mkPod 1 1 1 0 0 0 true false true; mkPod 2 1 1 0 0 1 true false true] []
+  mkA [mkPod 1 1 1 0 0 0 true false true false false; mkPod 2 1 1 0 0 1 true false true false false] []
       [mkJob 1 1 0 true true 0 false true false false; mkJob 2 2 1 true true 0 false true false false].
 
 Example c16_ex_wf : wf_pods ex_st /\ wf_jobs ex_st /\ wf_cfg ex_cfg.
@@ -211,7 +211,7 @@ Proof. split; [repeat constructor; cbn; intuition lia|vm_compute; reflexivity]. 
    two waiting jobs for the SAME pod both pass under a global limit of 1 (one pod is migrated,
    two jobs are "passed"); a job whose pod does not exist passes without any check *)
 Example c16_ex_same_pod_two_jobs :
-  let st := mkA [mkPod 1 1 1 0 0 0 true false true] []
+  let st := mkA [mkPod 1 1 1 0 0 0 true false true false false] []
                 [mkJob 1 1 0 true true 0 false true false false;
                  mkJob 2 1 1 true true 0 false true false false] in
   wf_pods st /\ measure (round ex_cfg 0 st) sel_all = 1 /\ jcount (round ex_cfg 0 st) sel_all = 2.
@@ -221,7 +221,7 @@ Proof.
 Qed.
 
 Example c16_ex_missing_pod_passes :
-  let st := mkA [mkPod 1 1 1 0 0 0 true false true; mkPod 2 1 1 0 0 1 true false false] []
+  let st := mkA [mkPod 1 1 1 0 0 0 true false true false false; mkPod 2 1 1 0 0 1 true false false false false] []
                 [mkJob 1 1 0 true true 1 true false true false;
                  mkJob 2 2 1 true true 0 false true false false] in
   map j_passed (a_jobs (round ex_cfg 0 st)) = [true; true]
@@ -231,7 +231,7 @@ Proof. vm_compute. repeat split. Qed.
 
 (* histories: Evict j1 (pod 1), a round, Evict j2 for the same pod is refused *)
 Definition ex_st2 : ast :=
-  mkA [mkPod 1 1 1 0 0 0 true false true] []
+  mkA [mkPod 1 1 1 0 0 0 true false true false false] []
       [mkJob 1 1 0 false false 0 false false false false; mkJob 2 1 1 false false 0 false false false false].
 Definition ex_ops : list op := [OEvict 1; ORound 0; OEvict 2; OSetPhase 1 1; OSetPhase 1 2; OEvict 2].
 
